@@ -9,7 +9,7 @@ SIZES = {"quick": 600, "thorough": 12000}
 RULE = ("op histories over 1-6 resources: entries (default chain with isolation / hotspot rules, or custom chains from a behaviour "
         "table: node/no-op/panicking prepare slots, nil/pass/block/panicking rule slots, stat.DefaultSlot and recording slots), "
         "inbound/outbound, resource type varying between entries of one resource (api.WithResourceType), batch in {0,1,2,3,small,2^32-1}, 0-3 args incl. unhashable, nested and interleaved; TraceError (nil and "
-        "non-nil), Exit with/without error, double exits, options left out (traffic type, batch, flag, resource type, chain, args, attachments: the pooled EntryOptions must supply the default), attachments by WithAttachments(caller's map)+WithAttachment with the caller mutating its map afterwards, exit handlers (nil / error / panic), hotspot rules of metric type QPS and Concurrency, two goroutines exiting one entry simultaneously (racexit, forced to overlap by a rendezvous stat slot), late Exit(WithError)/TraceError on exited ids after other entries reused "
+        "non-nil), Exit with/without error, double exits, options left out (traffic type, batch, flag, resource type, chain, args, attachments: the pooled EntryOptions must supply the default), attachments by WithAttachments(caller's map)+WithAttachment with the caller mutating its map afterwards, exit handlers (nil / error / panic), several WithArgs / options passed twice in one call, stat.ResetResourceNodeMap() while entries are in flight, clocks that read 0 or step backwards (7 % of the cases), hotspot rules of metric type QPS and Concurrency, two goroutines exiting one entry simultaneously (racexit, forced to overlap by a rendezvous stat slot), late Exit(WithError)/TraceError on exited ids after other entries reused "
         "the pooled context, ops on blocked ids; multi-goroutine soaks (2-8 goroutines x 10-120 Entry/Trace/Exit rounds, GOMAXPROCS 8) whose final account is compared; time steps from {0,1,499,500,501,999,1000,1001,9999,10000,10001,>array}; reads of "
         "every counter (1 s and 10 s views), gauge, peak concurrency, min RT, ctx.Err/Args of live entries, recording-slot logs. "
         "non-trivial = at least one pass, one block, one completion, one late op on an exited id and one non-zero read; distinct by "
@@ -55,13 +55,20 @@ def gen_case(rng, cid):
     nres = rng.randint(1, 6)
     ress = [f"r{i}" for i in range(nres)]
     panicky = rng.random() < 0.25          # the slice inside the known-finding region
-    ops = [f"clock {rng.choice([0, 1, 250, 499, 500, 501, 9999, rng.randint(0, 12000)])}"]
-    now = int(ops[0].split()[1])
+    # unusual clocks (7 % of the cases): the clock reads exactly 0 at the start and/or steps backwards between ops; the
+    # response-time figures are then whatever the code computes (not compared), conservation must still hold
+    weird = rng.random() < 0.07
+    if weird and rng.random() < 0.6:
+        ops = [f"clock abs {rng.choice([0, 0, 1, 5])}"]
+        now = 0
+    else:
+        ops = [f"clock {rng.choice([0, 1, 250, 499, 500, 501, 9999, rng.randint(0, 12000)])}"]
+        now = int(ops[0].split()[1])
     hot = set()
     for r in ress:
         if rng.random() < 0.35:
             ops.append(f"rule iso {r} {rng.choice([1, 1, 2, 3, 5, 4294967295])}")
-        if rng.random() < 0.3:
+        if rng.random() < 0.3 and not weird:
             # hotspot rule on argument 0: QPS (panics on specificItems[arg]) or Concurrency (panics inside the parameter cache)
             ops.append(f"rule {rng.choice(['hot', 'hotc'])} {r}")
             hot.add(r)
@@ -79,7 +86,14 @@ def gen_case(rng, cid):
         late = [(c, o) for c, o in late if c > 0]
         ops.extend(due)
         r = rng.random()
-        if r < 0.14:
+        if weird and r < 0.14 and rng.random() < 0.5:
+            # backwards: to an earlier relative time, or to a tiny absolute reading (far behind the epoch)
+            if rng.random() < 0.5:
+                now = max(0, now - rng.choice([1, 2, 499, 500, 1000, 10001]))
+                ops.append(f"clock {now}")
+            else:
+                ops.append(f"clock abs {rng.choice([0, 0, 1, 3, 499, 500, 10000])}")
+        elif r < 0.14:
             d = rng.choice(STEPS) if rng.random() < 0.8 else rng.randint(0, 1200)
             if rng.random() < 0.15:
                 d = (500 - now % 500) % 500 + rng.choice([0, 500, 10000])     # land on a bucket / cycle boundary
@@ -99,6 +113,14 @@ def gen_case(rng, cid):
             dirn = rng.choice(["in", "out", "in", "out", "-"])
             if rng.random() < 0.15:
                 rty += f" flag={rng.choice([1, -1, 7, 2147483647])}"
+            # HOW the options are passed: several WithArgs in one call (the list is their concatenation), options given
+            # twice with a decoy value first (the last one counts; attachments merge)
+            how = ""
+            if rng.random() < 0.12:
+                how += " dup=" + "".join(c for c in "btfrca" if rng.random() < 0.5) + "x"
+            if len(args) >= 2 and rng.random() < 0.35:
+                how += f" argsplit={rng.randint(1, len(args) - 1)}"
+            rty = how + rty
             bt = "-" if (rng.random() < 0.3 and not big) else str(batch)
             att = ""
             if rng.random() < 0.2:
@@ -141,7 +163,12 @@ def gen_case(rng, cid):
                     late.append((rng.randint(1, 3), f"exit {i}"))
             elif done:
                 ops.append(f"exit {rng.choice(done)}" + (f" {rng.choice(ERRS)}" if rng.random() < 0.6 else ""))
-        elif r < 0.695 and rng.random() < 0.25:
+        elif r < 0.70 and rng.random() < 0.06:
+            # the test utility stat.ResetResourceNodeMap() in the middle of the traffic
+            ops.append("resetnodes")
+            ops.append("nodes")
+            ops.append("read __inbound__ conc")
+        elif r < 0.695 and rng.random() < 0.25 and not weird:
             # many goroutines at one instant on their own resources; the final account must be the sequential ledger's
             R = rng.choice([1, 2, 3])
             ops.append(f"soak {rng.choice([2, 4, 8])} {rng.choice([10, 40, 120])} {R} {rng.randint(0, 10 ** 6)}")
@@ -153,8 +180,10 @@ def gen_case(rng, cid):
                 ops.append(f"read f{nsoak}_{j} sum10 {rng.choice(['pass', 'complete'])}")
         elif r < 0.93:
             key = rng.choice((used or ress) + ["__inbound__"]) if rng.random() < 0.93 else rng.choice(ress + ["nosuch"])
-            g = rng.choice(["sum", "sum", "sum10", "conc", "conc", "maxconc", "minrt", "type"])
-            if g == "type":
+            g = rng.choice(["sum", "sum", "sum10", "conc", "conc", "maxconc", "minrt", "type", "nodes"])
+            if g == "nodes":
+                ops.append("nodes")
+            elif g == "type":
                 ops.append(f"read {rng.choice(ress)} type")
             elif g in ("sum", "sum10"):
                 ops.append(f"read {key} {g} {rng.choice(EVS)}")
@@ -182,7 +211,7 @@ def gen_case(rng, cid):
         for r in used + ["__inbound__"]:
             ops.append(f"read {r} conc")
         ops.append("reclog")
-    return Case(cid, ops, tags=(f"res={nres}", "panicky" if panicky else "plain"))
+    return Case(cid, ops, tags=(f"res={nres}", "panicky" if panicky else "plain") + (("weird-clock",) if weird else ()))
 
 
 def gen(ctx, n):
@@ -233,7 +262,7 @@ def nontrivial(case, impl):
             npass += r == "pass"
             nblock += r == "block"
             k = 4
-            while t[k].startswith(("type=", "flag=")):
+            while t[k].startswith(("type=", "flag=", "dup=", "argsplit=")):
                 k += 1
             kinds.append("E" + t[3][0] + str(k - 4) + t[k][:1] + t[k + 1] + r[:1])
         elif t[0] in ("exit", "racexit"):
